@@ -8,7 +8,7 @@
    answers from the logical state of the session) is NOT proved: it is checked on generated histories against the reference state of
    tools/session_spec.py (on the implementation) and refuted for five known defects (Findings/C10.v).  Stage 1 schema space. *)
 Require Import PonyV.Model.SessionBase PonyV.Model.SessionDb PonyV.Model.Session.
-Require Import PonyV.Proofs.SessionIdx PonyV.Proofs.SessionTxn PonyV.Proofs.SessionCoh.
+Require Import PonyV.Proofs.SessionIdx PonyV.Proofs.SessionTxn PonyV.Proofs.SessionCoh PonyV.Proofs.SessionRefs.
 
 (* after obj.a = z succeeded, obj.a reads z - whatever happened before (loaded or new object, flushed or not) *)
 Theorem C10_read_after_set_except_known : forall sch, wf_schema sch = true -> forall ops h a z o at_ s',
@@ -48,6 +48,16 @@ Theorem C10_scalar_read_except_known : forall sch, no_req_refs sch = true -> wf_
   (o_seed ob = false -> exists r, In r (tab (s_db (run sch ops)) (o_ent ob)) /\ r_pk r = z).
 Proof. exact scalar_read_is_database_value. Qed.
 Print Assumptions C10_scalar_read_except_known.
+
+(* PARTIAL - collection reads.  Proved: a collection that is fully loaded is read from the cache alone (no query, no flush) and the answer is its item
+   list.  NOT proved (Proofs/SessionRefs.v, loaded_collections_complete_statement): that a fully loaded collection holds every row that refers to its
+   owner, hence that the answer is the logical content (database rows + added - removed). *)
+Theorem C10_collection_read_partial : forall sch s h a o at_ t rv,
+  hget s h = Some o -> get_attr sch (obj_ent s o) a = Some at_ -> a_kind at_ = KSet t rv -> is_del (obj_st s o) = false ->
+  has_sd s o a = true -> coll_full s o a = true -> copy_assert_fails s o a = false ->
+  read_op sch s h a = objs_res s (sd_items (get_sd s o a)).
+Proof. exact read_full_collection_from_cache. Qed.
+Print Assumptions C10_collection_read_partial.
 
 (* non-vacuity: in a new session an object is fetched, one attribute is written; the other one still reads as the row's value *)
 Example C10_scalar_read_nonvacuous :
